@@ -70,7 +70,7 @@ def run_netlist(case):
         netgen.ref_trace(desc, seq_in, raw_out=raw)
     except Exception as e:
         raise HarnessError('reference failed: {!r}'.format(e))
-    nt = bool(raw) or any(v < 0 or v > mask(sq['w']) for sq in case.get('seqs', []) for v in sq['values']) or any(
+    nt = bool(raw) or any((nd['p'].get('rv') or 0) != ((nd['p'].get('rv') or 0) & mask(nd['w'])) for nd in desc['nodes'] if nd['op'] == 'Reg') or any(v < 0 or v > mask(sq['w']) for sq in case.get('seqs', []) for v in sq['values']) or any(
         x != (x & mask(i['w'])) for vec in case['inputs'] for x, i in zip(vec, desc['inputs']))
     tags = []
     bad = bad_wires(sysm)
@@ -121,15 +121,60 @@ def run_block(case):
     return ok(nt, [case['block']])
 
 
+def run_bidir(case):
+    """bidirectional wires: direct put / prepare and a BidirBuf whose pout is wider than the pad"""
+    sysm = py4hw.HWSystem()
+    wb, wp = case['wb'], case['wp']
+    pad = sysm.bidir_wire('pad', wb)
+    pin = sysm.wire('pin', wb)
+    pout = sysm.wire('pout', wp)
+    poe = sysm.wire('poe')
+    py4hw.BidirBuf(sysm, 'buf', pin, pout, poe, pad)
+    sim = sysm.getSimulator()
+    nt = False
+    for kind, v in case['ops']:
+        if kind == 'put':
+            pad.put(v)
+        elif kind == 'prepare':
+            pad.prepare(v)
+            py4hw.Wire.settleAll()
+        elif kind == 'drive':
+            pout.put(v)
+            poe.put(1)
+            sim.clk(1)
+        else:
+            poe.put(0)
+            sim.clk(1)
+        if v < 0 or v > mask(wb):
+            nt = True
+        bad = bad_wires(sysm)
+        if bad:
+            return fail('out_of_range|bidir|' + kind, 'after {}({}): '.format(kind, v) + '; '.join(bad[:3]))
+    return ok(nt, ['bidir'])
+
+
 def run_case(case):
     if 'desc' in case:
         return run_netlist(case)
+    if case.get('kind') == 'bidir':
+        return run_bidir(case)
     return run_block(case)
+
+
+def bidir_cases():
+    v = st.one_of(st.integers(-300, 5000), st.integers(0, 3))
+    return st.fixed_dictionaries({'kind': st.just('bidir'), 'wb': st.sampled_from([1, 4, 8]), 'wp': st.sampled_from([1, 8, 12, 16]),
+                                  'ops': st.lists(st.tuples(st.sampled_from(['put', 'prepare', 'drive', 'release']), v).map(list),
+                                                  min_size=1, max_size=8)})
 
 
 @st.composite
 def netlist_cases(draw, max_nodes, n_cycles):
-    desc = draw(netlists(max_nodes=max_nodes, n_regs=(0, 3), hierarchy=1, div=True))
+    desc = draw(netlists(max_nodes=max_nodes, n_regs=(0, 3), hierarchy=1, div=True, reg_values=True))
+    # negative and oversized reset values
+    for nd in desc['nodes']:
+        if nd['op'] == 'Reg' and draw(st.booleans()):
+            nd['p']['rv'] = draw(st.one_of(st.integers(-300, -1), st.integers(mask(nd['w']) + 1, (mask(nd['w']) + 1) * 4 + 9)))
     # out-of-range constants
     for nd in desc['nodes']:
         if nd['op'] == 'Constant' and draw(st.booleans()):
@@ -167,5 +212,6 @@ def strata(tier):
     a, b, mx, cyc = (1200, 3000, 20, 6) if tier == 'quick' else (20000, 60000, 50, 20)
     return [
         {'name': 'netlists', 'kind': 'hyp', 'examples': a, 'strategy': lambda: netlist_cases(mx, cyc), 'run_case': run_case},
+        {'name': 'bidirectional_wires', 'kind': 'hyp', 'examples': 200 if tier == 'quick' else 5000, 'strategy': bidir_cases, 'run_case': run_case},
         {'name': 'catalogue_blocks_at_extremes', 'kind': 'hyp', 'examples': b, 'strategy': block_cases, 'run_case': run_case},
     ]
